@@ -16,7 +16,11 @@
      <<"CASE", ver(1/2), tv, ord(0 asc/1 desc), full(0/1), n, idx1, a1, two1, ...>>
    (idx = catalogue index, a = first added variant or 0, two = 1 if a second one is
    added).  The GFA text of every (line, added tags) combination is printed once as
-   <<"TEXT", ver, idx, a, two, text>>, the configuration sets as <<"CFGS", ...>>.
+   <<"TEXT", ver, idx, a, two, text>> (for a line with special characters
+   <<"TEXTP", ..., pieces>>, a piece being a string or a sequence of code points that
+   the harness turns into characters), the configuration sets as <<"CFGS", ...>>.
+   Documents with such a line (Doc!SpecialDocs) always get the full configuration
+   product: the same records must result through every entry point.
    Invariant: every enumerated document satisfies Doc!IsValidDoc.                  *)
 EXTENDS Doc
 
@@ -29,11 +33,13 @@ VerNum(v) == IF v = "gfa1" THEN 1 ELSE 2
 RECURSIVE SumSet(_)
 SumSet(S) == IF S = {} THEN 0 ELSE LET x == CHOOSE x \in S : TRUE IN x + SumSet(S \ {x})
 
-Docs(v) == ValidDocs(v, KL) \cup SeedDocs(v, KS)
+Docs(v) == ValidDocs(v, KL) \cup SeedDocs(v, KS) \cup SpecialDocs(v)
 
 \* the variant that gets the full configuration product
 FullTv(d) == (SumSet(d) % NVar) + 1
-Tvs(d) == IF TVALL THEN 0..NVar
+IsSpecial(d) == \E i \in d : HasCp(Cat(ver)[i])
+Tvs(d) == IF IsSpecial(d) THEN {0, FullTv(d)}
+          ELSE IF TVALL THEN 0..NVar
           ELSE {0} \cup {((SumSet(d) + 7 * m) % NVar) + 1 : m \in 0..2}
 OrdOf(d, t) == IF (t + Cardinality(d)) % 2 = 0 THEN "asc" ELSE "desc"
 
@@ -57,11 +63,14 @@ Flat(ix, t, j) == IF j > Len(ix) THEN <<>>
 Emit == LET o == OrdOf(doc, tv)
             ix == DocOrder(doc, o) IN
         PrintT(<<"CASE", VerNum(ver), tv, IF o = "asc" THEN 0 ELSE 1,
-                 IF tv = FullTv(doc) /\ SumSet(doc) % FULLMOD = 0 THEN 1 ELSE 0, Len(ix)>> \o Flat(ix, tv, 1))
+                 IF IsSpecial(doc) \/ (tv = FullTv(doc) /\ SumSet(doc) % FULLMOD = 0) THEN 1 ELSE 0, Len(ix)>> \o Flat(ix, tv, 1))
 
 Added(a, two) == IF a = 0 THEN <<>> ELSE IF two = 1 THEN <<Var[a], Var[(a % NVar) + 1]>> ELSE <<Var[a]>>
 ASSUME \A v \in {"gfa1", "gfa2"} : \A i \in DOMAIN Cat(v) : \A a \in 0..NVar : \A two \in {0, 1} :
-         (a = 0 /\ two = 1) \/ PrintT(<<"TEXT", VerNum(v), i, a, two, Text(WithTags(Cat(v)[i], Added(a, two)))>>)
+         (a = 0 /\ two = 1) \/
+         LET l == WithTags(Cat(v)[i], Added(a, two)) IN
+         IF HasCp(l) THEN PrintT(<<"TEXTP", VerNum(v), i, a, two, Pieces(l)>>)
+         ELSE PrintT(<<"TEXT", VerNum(v), i, a, two, Text(l)>>)
 ASSUME PrintT(<<"CFGS", "full", 0, FullCfgs>>)
 ASSUME \A t \in 0..NVar : PrintT(<<"CFGS", "red", t, RedCfgs(t)>>)
 ASSUME PrintT(<<"NVAR", NVar, {<<i, Var[i].t, Var[i].n>> : i \in DOMAIN Var}>>)
